@@ -1,9 +1,122 @@
-/- stub: transcription of rrul_fill_Mnly pending -/
-import Echse.Model.RrBase
+/-
+  Model of `rrul_fill_Mly` (src/evrrul.c:2110-2356, FREQ=MINUTELY).  Hand transcription, loop by loop; shares the mask
+  set-up (`mkSubCtx`), the day tests (`SubCtx.dayOut`), `doyHit`, `interPast`, `posPickP`, `posPickAnyP` with the hourly
+  filler (Echse.Model.RrHly).  C `unsigned int` arithmetic that can wrap is written with explicit `% u32`.
+  Tied to the C code by tools/rrfillprobe.py.  Results are accumulated in reverse; `cnt` is the C variable `res`.
+-/
+import Echse.Model.RrHly
 namespace Echse.Rrule
 open Echse.Instant
 
-/-- `none` = not modelled yet -/
-def fillMnly (_r : Rule) (_proto : Inst) (_nti : Nat) : Option (List Inst) := none
+/-- 2236-2245: `for (k = 0, tmp = H * 60U + M; !(H_mask & (1U << tmp / 60U)) || !(M_mask & (1ULL << tmp % 60U));
+tmp = (tmp + rr->inter % 1440U) % 1440U) if (++k >= 1440U) goto fin;`
+`some true` = an allowed time of day is reachable, `some false` = `goto fin`.  Fuel: `k` grows by one per round and the
+loop is left at `k = 1440`, so 1440 rounds suffice. -/
+def mnlyReach (c : SubCtx) : Nat → Nat → Nat → Option Bool
+  | 0, _, _ => none
+  | fuel+1, k, tmp =>
+    if (c.HMask &&& shl1 (tmp / 60)) ≠ 0 ∧ (c.MMask &&& shl1q (tmp % 60)) ≠ 0 then some true
+    else if k + 1 ≥ 1440 then some false
+    else mnlyReach c fuel (k + 1) ((tmp + c.inter % 1440) % 1440)
+
+/-- 2331-2352: the ENUM loop of the minute `y-m-d H:M`, `for (ENUM_INIT(e, iS); res < nti && ENUM_COND(e, iS);
+ENUM_ITER(e, iS))`: one pass over the seconds (the hidden minute and hour counters are set to -2U by ENUM_ITER);
+result `(cnt, acc, fin)`, `fin` = `goto fin` was taken.  Recursion over the (finite) list of `(e.S[iS], iS)`. -/
+def mnlyEnum (c : SubCtx) (y m d H M : Nat) : List (Nat × Nat) → Nat → List Inst → Nat × List Inst × Bool
+  | [], cnt, acc => (cnt, acc, false)
+  | (s, iS) :: rest, cnt, acc =>
+    if ¬ cnt < c.nti then (cnt, acc, false) else
+    let x := mkInst y m d H M s c.proto.ms
+    if ltP x c.proto then mnlyEnum c y m d H M rest cnt acc                  -- continue
+    else if ltP c.r.untl x then (cnt, acc, true)                             -- goto fin
+    else if !posPickP c.r.pos iS c.e.S.length then mnlyEnum c y m d H M rest cnt acc   -- not one of the set positions
+    else mnlyEnum c y m d H M rest (cnt + 1) (x :: acc)                      -- tgt[res++] = x
+
+/-- 2259-2266 (and 2524-2531): `while (d > maxd) { d -= maxd; if (++m > 12U) { y++; m = 1U; } maxd = __get_ndom(y, m); }`,
+state `(y, m, d, maxd)`.  Fuel: `m` stays in 1..12, so `maxd ≥ 28` and every round lowers `d` by at least 1 while
+`d > maxd ≥ 1`: `d + 1` rounds suffice (callers pass `d + 1`). -/
+def subCarry : Nat → Nat → Nat → Nat → Nat → Option (Nat × Nat × Nat × Nat)
+  | 0, _, _, _, _ => none
+  | fuel+1, y, m, d, maxd =>
+    if d > maxd then
+      let d := d - maxd
+      if m + 1 > 12 then
+        let y := (y + 1) % u32
+        subCarry fuel y 1 d (getNdom y 1)
+      else subCarry fuel y (m + 1) d (getNdom y (m + 1))
+    else some (y, m, d, maxd)
+
+/-- 2248-2353: the outer loop over the candidate minutes, `for (w = …, maxd = …, inc = rr->inter; res < nti;
+({ if ((M += inc) >= 60U) { … } inc = rr->inter; }))`.  `inc` is `rr->inter` at the head of every round, so it is not
+part of the state; the body says which `inc` its `continue` leaves behind.  `none` out of fuel (see `mnlyFuel`). -/
+def mnlyLoop (c : SubCtx) (secs : List (Nat × Nat)) :
+    Nat → Nat → Nat → Nat → Nat → Nat → Nat → Nat → Nat → List Inst → Option (List Inst)
+  | 0, _, _, _, _, _, _, _, _, _ => none
+  | fuel+1, y, m, d, H, M, w, maxd, cnt, acc =>
+    if ¬ cnt < c.nti then some acc else
+    -- 2271-2288: the first instant this candidate could produce; the year stop; UNTIL
+    let lb := mkInst y m d H M 0 c.proto.ms
+    if y > subMaxYear then some acc                                          -- goto fin
+    else if ltP c.r.untl lb then some acc                                    -- goto fin
+    else
+    -- 2292-2352: the body proper, `(cnt, acc, fin, inc)`
+    let pastD := interPast ((1440 + u32 - (H * 60 + M) % u32) % u32) c.inter -- inter_past(1440U - (H * 60U + M), rr->inter)
+    let (cnt, acc, fin, inc) : Nat × List Inst × Bool × Nat :=
+      if c.dayOut w m d maxd then (cnt, acc, false, pastD)                   -- weekday, month or day is filtered
+      else if (c.HMask &&& shl1 H) = 0 then                                  -- hour is filtered
+        (cnt, acc, false, interPast ((60 + u32 - M) % u32) c.inter)
+      else if (c.MMask &&& shl1q M) = 0 then (cnt, acc, false, c.inter)      -- minute is filtered
+      else if !c.r.doy.isEmpty && !doyHit c.r.doy (ymdGetYd y m d) (maxyOf y) then (cnt, acc, false, pastD)
+      else
+        let (cnt, acc, fin) := mnlyEnum c y m d H M secs cnt acc             -- bang:
+        (cnt, acc, fin, c.inter)
+    if fin then some acc else
+    -- 2251-2270: the loop's increment expression
+    let M := (M + inc) % u32
+    if M ≥ 60 then
+      let H := (H + M / 60) % u32
+      let M := M % 60
+      if H ≥ 24 then
+        let q := H / 24
+        let w := wrapWd ((w + q) % u32)
+        match subCarry ((d + q) % u32 + 1) y m ((d + q) % u32) maxd with
+        | none => none
+        | some (y, m, d, maxd) => mnlyLoop c secs fuel y m d (H % 24) M w maxd cnt acc
+      else mnlyLoop c secs fuel y m d H M w maxd cnt acc
+    else mnlyLoop c secs fuel y m d H M w maxd cnt acc
+
+/-- fuel of `mnlyLoop` entered at year `y`.  `inc` is `rr->inter` or `inter_past(rem, rr->inter)`, a multiple of
+`rr->inter ≥ 1` below `rem + rr->inter` (`rem ≤ 1440`, no wrap).  As long as `M + inc` does not wrap, a round moves the
+candidate `y-m-d H:M` forward by `inc ≥ 1` minutes (the carries keep the minute count), and a round entered with
+`y > 2099` leaves the loop: at most `(2100 - y) * 366 * 1440 + 1` such rounds.  `M + inc` wraps only for
+`inc ≥ 2^32 - 59`; then `M` shrinks by at least 1, the rest stays, and after at most 59 such rounds in a row (255 for a
+proto with a minute out of range) the sum no longer wraps, `d` grows by more than 10^6 days and the next round sees
+`y > 2099`. -/
+def mnlyFuel (y : Nat) : Nat := (2100 - y) * 527040 + 300
+
+/-- `rrul_fill_Mly(tgt, nti, rr)` with `*tgt = proto` -/
+def fillMnly (r : Rule) (proto : Inst) (nti : Nat) : Option (List Inst) :=
+  let y := proto.y
+  let m := proto.m
+  let d := proto.d
+  -- 2128-2132
+  match capNti r nti with
+  | none => some []
+  | some nti =>
+  -- 2133-2136
+  if r.scale ≠ 0 then some [] else
+  -- 2138-2142
+  let (H, M) := if proto.H = allDay then (0, 0) else (proto.H, proto.M)
+  let c := mkSubCtx r proto nti
+  -- 2223-2229
+  if y < 1600 ∨ m = 0 ∨ m > 12 ∨ d = 0 ∨ d > 31 then some [] else
+  if r.inter % u32 = 0 then some [] else
+  -- 2231-2234
+  if !posPickAnyP r.pos c.e.S.length then some [] else
+  match mnlyReach c 1440 0 (H * 60 + M) with
+  | none => none
+  | some false => some []                                                    -- incongruent, nothing will ever match
+  | some true =>
+    (mnlyLoop c c.e.S.zipIdx (mnlyFuel y) y m d H M (ymdGetWday y m d) (getNdom y m) 0 []).map List.reverse
 
 end Echse.Rrule
